@@ -59,7 +59,7 @@ Verdict(e) ==
      ELSE IF pc # "" THEN pc
      ELSE IF e.st # x.st THEN Outcome(e, x)
      ELSE IF r.out # x.out THEN "XM_returned_node"
-     ELSE IF r.upl # x.upl THEN "XM_upload_side_effect"
+     ELSE IF r.upl # x.upl /\ (e.op # "addfile" \/ UplAllowed(S, o, e.st) # BOOLEAN) THEN "XM_upload_side_effect"
      ELSE IF r.has # x.has THEN "XM_has_child"
      ELSE IF r.emd # x.emd THEN "XM_metadata_answer"
      ELSE IF r.missing # x.missing THEN "XM_missing_name"
